@@ -23,6 +23,12 @@ type solverSpec struct {
 var solvers = []solverSpec{
 	{"z3-4.8.12", func(f string, t int) []string { return []string{"z3", fmt.Sprintf("-T:%d", t), "-smt2", f} }, ""},
 	{"z3-5.1.0", func(f string, t int) []string { return []string{"z3-new", fmt.Sprintf("-T:%d", t), "-smt2", f} }, ""},
+	{"z3-5.1.0/seed7", func(f string, t int) []string {
+		return []string{"z3-new", fmt.Sprintf("-T:%d", t), "smt.random_seed=7", "-smt2", f}
+	}, ""},
+	{"z3-4.8.12/seed7", func(f string, t int) []string {
+		return []string{"z3", fmt.Sprintf("-T:%d", t), "smt.random_seed=7", "-smt2", f}
+	}, ""},
 	{"cvc5-1.0", func(f string, t int) []string {
 		return []string{"cvc5", fmt.Sprintf("--tlimit=%d", t*1000), "--lang=smt2", "--produce-models", f}
 	}, "(set-logic ALL)\n"},
@@ -361,7 +367,9 @@ func (e *Engine) solve(o *Obligation, dir string, timeout int) {
 	// stage 1: one fast attempt with the solver that decides most obligations; the full portfolio only if it does not answer
 	if st1, out1 := runSolver(context.Background(), solvers[0], file, 2); st1 == "unsat" {
 		o.Status, o.Solver, o.Time, o.Output = "discharged", solvers[0].name, time.Since(start).Seconds(), solvers[0].name+": unsat"
-		os.Remove(file)
+		if os.Getenv("P9VC_KEEPSMT") == "" {
+			os.Remove(file)
+		}
 		return
 	} else if st1 == "sat" {
 		o.Status, o.Solver, o.Model = "failed", solvers[0].name, out1
@@ -440,7 +448,7 @@ func (e *Engine) solve(o *Obligation, dir string, timeout int) {
 	}
 	o.Time = time.Since(start).Seconds()
 	o.Output = strings.Join(outs, "; ")
-	if o.Status == "discharged" {
+	if o.Status == "discharged" && os.Getenv("P9VC_KEEPSMT") == "" {
 		os.Remove(file)
 		if cvcfile != file {
 			os.Remove(cvcfile)
